@@ -6,6 +6,7 @@ Lay(n) == CASE n = 0 -> [dpad |-> 0,    ipad |-> 0,    codec |-> "mh"]
             [] n = 1 -> [dpad |-> 1,    ipad |-> 7,    codec |-> "sorted"]
             [] n = 2 -> [dpad |-> 1413, ipad |-> 4096, codec |-> "mh"]
             [] n = 3 -> [dpad |-> 8,    ipad |-> 1,    codec |-> "sorted"]
+            [] n = 4 -> [dpad |-> 0,    ipad |-> 0,    codec |-> "none"]       \* WithoutIndex: Finalize cannot succeed
 
 B2N(b) == IF b THEN 1 ELSE 0
 MkOpt(w, d, i, v, m, l) ==
@@ -16,6 +17,7 @@ MkOpt(w, d, i, v, m, l) ==
    is met without multiplying the matrix (C05 varies it independently). *)
 SemOpts == { MkOpt(w, d, i, v, 64, (B2N(w) + 2 * B2N(d) + B2N(i)) % 4) :
                w \in BOOLEAN, d \in BOOLEAN, i \in BOOLEAN, v \in BOOLEAN }
+           \cup { MkOpt(FALSE, FALSE, FALSE, FALSE, 64, 4) }
 SemRoots   == { <<"b1">>, <<>> }
 SemPutIds  == {"b1", "b2", "b3", "b5", "b7", "b8", "b11", "b18"}
 SemMany    == { <<"b4", "b2">>, <<"b1", "b8">>, <<"b3", "b3">> }
